@@ -580,7 +580,14 @@ func (h *clH) decrease(q clPos, who int, full bool) string {
 	}
 	amt := liq
 	if !full {
-		switch e.R.N(4) {
+		switch e.R.N(5) {
+		case 4:
+			// leave a dust residue: the withdrawal of the residue later pays nothing but must still clean up the ticks
+			dust := sdkmath.LegacyNewDecWithPrec(int64(1+e.R.N(999)), int64(6+e.R.N(13)))
+			if liq.GT(dust) {
+				amt = liq.Sub(dust)
+				e.Stat("decrease.to_dust")
+			}
 		case 0:
 			amt = liq.QuoInt64(2)
 		case 1:
